@@ -155,6 +155,49 @@ def check_recv_loop(ctx, rule, rel, qual, fn, exc_ok):
                   'returns the buffer only when count == requested; otherwise raises', 'returns %s without count == requested (short stream not reported)' % short(s))
 
 
+def check_optional_batch_item_fields(ctx, t):
+    """C19.R7: fields of a response batch item that a failure response may omit (operation, response payload, batch item id) are dereferenced
+    only after the result status was found to be SUCCESS, or under a None test of that field."""
+    CLIENT = 'kmip/services/kmip_client.py'
+    OPT = ('operation', 'response_payload', 'unique_batch_item_id')
+    ctx.rule('C19.R7', 'in KMIPProxy a response batch item field that failure responses omit (operation, response_payload, unique_batch_item_id) is dereferenced only on the success edge of the status test or under a None test of that field: otherwise a message-level failure (no operation echoed) ends in AttributeError instead of the server\'s status, reason and message')
+    cls = get_class(t, 'KMIPProxy')
+    n = 0
+    for name, fn in methods(cls).items():
+        # locals bound to a batch item: X = <...>.batch_items[i] / for X in <...>.batch_items / parameter named batch_item
+        items = set(a.arg for a in fn.args.args if a.arg == 'batch_item')
+        for x in walk_local(fn):
+            if isinstance(x, ast.Assign) and isinstance(x.targets[0], ast.Name) and isinstance(x.value, ast.Subscript) and 'batch_items' in U(x.value.value):
+                items.add(x.targets[0].id)
+            if isinstance(x, ast.For) and isinstance(x.target, ast.Name) and 'batch_items' in U(x.iter):
+                items.add(x.target.id)
+        if not items:
+            continue
+        derefs = [x for x in walk_local(fn) if isinstance(x, ast.Attribute) and isinstance(x.value, ast.Attribute) and x.value.attr in OPT
+                  and isinstance(x.value.value, ast.Name) and x.value.value.id in items]
+        if not derefs:
+            continue
+        g = CFG(fn)
+        from ..dataflow import node_of_expr
+        for d in derefs:
+            n += 1
+            node = node_of_expr(g, d)
+            item, fld = d.value.value.id, d.value.attr
+            ok = False
+            for tt, lab in dominating_edges(g, node):
+                p = cmp_parts(tt.stmt)
+                if p and U(p[0]) in ('%s.result_status.value' % item,) and enum_member(p[2]) == ('ResultStatus', 'SUCCESS') and ((p[1] in ('Eq', 'Is') and lab == 'T') or (p[1] in ('NotEq', 'IsNot') and lab == 'F')):
+                    ok = True
+                if p and U(p[0]) == '%s.%s' % (item, fld) and isinstance(p[2], ast.Constant) and p[2].value is None and ((p[1] in ('IsNot', 'NotEq') and lab == 'T') or (p[1] in ('Is', 'Eq') and lab == 'F')):
+                    ok = True
+                if U(tt.stmt) == '%s.%s' % (item, fld) and lab == 'T':
+                    ok = True
+            ctx.check(ok, 'C19.R7', 'KMIPProxy.%s|%s.%s.%s' % (name, item, fld, d.attr), '%s:%s KMIPProxy.%s' % (CLIENT, d.lineno, name),
+                      '%s.%s is dereferenced after the SUCCESS test / under its None test' % (item, fld),
+                      '%s.%s.%s is evaluated before the result status is known to be SUCCESS and without a None test: for a failure response without that field the caller gets AttributeError, not the operation-failure error with the server\'s status, reason and message' % (item, fld, d.attr))
+    ctx.count('optional_batch_item_field_dereferences', n, 3)
+
+
 def run(ctx):
     src = ctx.src
     for rid, text in (
@@ -458,3 +501,4 @@ def run(ctx):
     ctx.count('request_structures', n_req, 25)
     ctx.not_decided += ['that the data returned on success equals the payload values (field-by-field naming of result objects is only checked for status/reason/message)']
     ctx.assumptions += ['socket.recv(n) returns at most n bytes and b"" at end of stream']
+    check_optional_batch_item_fields(ctx, src.tree(PROXY))
